@@ -349,3 +349,28 @@ Proof. vm_compute. reflexivity. Qed.
 (* on validated headers writeHeader and MarshalBinary agree *)
 Lemma write_header_eq_encode : forall h b, hdr_encode h = Some b -> write_header h = b.
 Proof. intros h b H. apply hdr_encode_some in H. symmetry. apply H. Qed.
+
+(* ------------------------------------------------------------------ batches: value semantics *)
+
+Lemma encode_batch_nth : forall hs i h, nth_error hs i = Some h ->
+  nth_error (encode_batch hs) i = Some (hdr_encode h, write_header h).
+Proof. intros hs i h H. unfold encode_batch. exact (map_nth_error (fun h => (hdr_encode h, write_header h)) i hs H). Qed.
+
+Lemma decode_batch_nth : forall bufs i b, nth_error bufs i = Some b ->
+  nth_error (decode_batch bufs) i = Some (hdr_decode b, read_header b).
+Proof. intros bufs i b H. unfold decode_batch. exact (map_nth_error (fun b => (hdr_decode b, read_header b)) i bufs H). Qed.
+
+(* a batch can be cut anywhere / answered by several workers: the results just concatenate *)
+Lemma encode_batch_app : forall a b, encode_batch (a ++ b) = encode_batch a ++ encode_batch b.
+Proof. intros. apply map_app. Qed.
+
+(* what was retained from a batch of accepted encodings still decodes to the headers given *)
+Lemma encode_batch_roundtrip : forall hs i h b w, nth_error hs i = Some h ->
+  wf_hdr h -> h_ver h < 8 ->
+  nth_error (encode_batch hs) i = Some (Some b, w) -> hdr_decode b = HOk h /\ w = b.
+Proof.
+  intros hs i h b w Hn Hwf Hv H. rewrite (encode_batch_nth hs i h Hn) in H.
+  injection H as He <-. split.
+  - apply hdr_roundtrip_enc_dec; assumption.
+  - apply write_header_eq_encode. exact He.
+Qed.
